@@ -186,6 +186,14 @@ def element_updates(sym, arrname, hyps, timeout=10.0):
             r, env, be = smt.check_sat(list(hyps) + list(e.guards) + g2 + [neq, tm.mk_eq(e.idx, idx2)], timeout)
             inj = r
         total = e.val
+        # a store under a condition (other than the ranges of its own loops) contributes only where the condition holds
+        ranges = set()
+        for q in e.qvars:
+            ranges.add(tm.mk_le(tm.lift(q[1]), q[0]).id)
+            ranges.add(tm.mk_lt(q[0], tm.lift(q[2])).id)
+        conds = [g for g in e.guards if tm.lift(g).id not in ranges]
+        if conds and isinstance(total, tm.T):
+            total = tm.mk_ite(tm.mk_and(*conds), total, tm.ZERO)
         for q in reversed(free):
             bv = fresh(q[0].args[0].split("#")[0] + "$")
             total = tm.mk_sum(bv, q[1], q[2], tm.substitute(total, {q[0]: bv}))
